@@ -28,11 +28,11 @@ func init() {
 
 type hookModel struct {
 	url, hdrName, hdrValue, authKind string
-	active                          bool
-	count                           int
-	attempted                       bool
-	lastTime                        int64
-	lastCode                        int // 0: transport error / unreadable body
+	active                           bool
+	count                            int
+	attempted                        bool
+	lastTime                         int64
+	lastCode                         int // 0: transport error / unreadable body
 }
 
 type hookCall struct {
